@@ -54,6 +54,8 @@ type simGen struct {
 	// inner, when set, is one of the library's own relay address generators (on simnet's
 	// transport.Net): UDP relay sockets come from it, simGen only keeps the books
 	inner turn.RelayAddressGenerator
+	// innerTCP: listeners and outgoing connections come from inner as well (TCP world)
+	innerTCP bool
 }
 
 // genRand is the deterministic random source handed to the library's port-range generator.
@@ -160,6 +162,19 @@ func (g *simGen) AllocateListener(conf turn.AllocateListenerConfig) (net.Listene
 		return nil, nil, errors.New("simGen: scripted failure")
 	}
 	ip := relayIPFor(conf.Network)
+	if g.inner != nil && g.innerTCP {
+		ln, adv, ierr := g.inner.AllocateListener(conf)
+		if ierr != nil {
+			return nil, nil, ierr
+		}
+		sl, ok := ln.(*sim.Listener)
+		if !ok {
+			return nil, nil, errors.New("simGen: the library's generator returned a foreign listener type")
+		}
+		g.made = append(g.made, &genRes{Kind: "listener", Lis: sl, Step: g.w.stepNo, Net: conf.Network, RPort: conf.RequestedPort})
+
+		return ln, adv, nil
+	}
 	l, err := g.w.net.ListenTCPAt(conf.Network, ip, conf.RequestedPort)
 	if err != nil {
 		return nil, nil, err
@@ -178,6 +193,19 @@ func (g *simGen) AllocateConn(conf turn.AllocateConnConfig) (net.Conn, error) {
 		g.mu.Unlock()
 		time.Sleep(d + 400*time.Millisecond)
 		g.mu.Lock()
+	}
+	if g.inner != nil && g.innerTCP {
+		nc, ierr := g.inner.AllocateConn(conf)
+		if ierr != nil {
+			return nil, ierr
+		}
+		sc, ok := nc.(*sim.Conn)
+		if !ok {
+			return nil, errors.New("simGen: the library's generator returned a foreign connection type")
+		}
+		g.made = append(g.made, &genRes{Kind: "conn", Conn: sc, Step: g.w.stepNo, Net: conf.Network})
+
+		return nc, nil
 	}
 	la, _ := conf.LocalAddr.(*net.TCPAddr)
 	ra, _ := conf.RemoteAddr.(*net.TCPAddr)
